@@ -216,14 +216,19 @@ impl SearchQuery {
     }
 
     fn slice(&self, mut ids: Vec<DbId>) -> Result<Vec<DbId>, DbError> {
+        // offset and limit beyond the end yield a shorter (or empty) result
+        let len = ids.len() as u64;
+        let begin = self.offset.min(len) as usize;
+        let end = self.offset.saturating_add(self.limit).min(len) as usize;
+
         Ok(match (self.limit, self.offset) {
             (0, 0) => ids,
-            (0, _) => ids[self.offset as usize..].to_vec(),
+            (0, _) => ids[begin..].to_vec(),
             (_, 0) => {
-                ids.truncate(self.limit as usize);
+                ids.truncate(end);
                 ids
             }
-            (_, _) => ids[self.offset as usize..(self.offset + self.limit) as usize].to_vec(),
+            (_, _) => ids[begin..end].to_vec(),
         })
     }
 
